@@ -36,12 +36,15 @@ EXTRA = {
     "bioconsert_borda": (lambda: BioConsert([BordaCount()]), True),
     "bioconsert_pick": (lambda: BioConsert([PickAPerm()]), True),
     "bioconsert_borda_copeland": (lambda: BioConsert([BordaCount(use_bucket_id=True), CopelandMethod()]), True),
+    # starting algorithms given as a one-shot iterable (the constructor accepts any Iterable), as a tuple
+    "bioconsert_iter_borda_copeland": (lambda: BioConsert(iter([BordaCount(), CopelandMethod()])), True),
+    "bioconsert_tuple_pick_kwik": (lambda: BioConsert((PickAPerm(), KwikSortRandom())), True),
     "parcons_pick_b0": (lambda: ParCons(auxiliary_algorithm=PickAPerm(), bound_for_exact=0), False),
     "parcons_bioconsert_borda_b1": (lambda: ParCons(auxiliary_algorithm=BioConsert([BordaCount()]), bound_for_exact=1),
                                     False),
 }
 # configurations for which "refuses <=> predicate False" is asserted
-IFF = {"borda", "borda_bucket", "enum_borda", "enum_borda_bucket", "pickaperm", "enum_pickaperm", "bioco",
+IFF = {"bioconsert_iter_borda_copeland", "bioconsert_tuple_pick_kwik", "borda", "borda_bucket", "enum_borda", "enum_borda_bucket", "pickaperm", "enum_pickaperm", "bioco",
        "enum_bioco", "bioconsert_borda_pick", "bioconsert_borda", "bioconsert_pick", "bioconsert_borda_copeland"}
 NESTED = {"bioco", "enum_bioco", "bioconsert_borda_pick", "parcons_bioco_b0", "parcons_borda_b0",
           "bioconsert_kwik_cop_borda", "bioconsert_copeland", "bioconsert_kwik"} | set(EXTRA)
